@@ -610,8 +610,9 @@ def run_case(part, gen_seed: int, p_odd: float, lean_reqs: list, pending: list) 
         part.count("deco_outside_model=recursion")
     # ---- extended model (Model/ScopeExt.lean): value metadata, quantization annotations, sharding values
     we0 = None
+    ext_wf = bool(len(model.functions)) and model.ir_version >= 10
     try:
-        we0 = sm.ir_graph_to_world_ext(model.graph, {})
+        we0 = sm.ir_model_to_world_ext(model, {}) if ext_wf else sm.ir_graph_to_world_ext(model.graph, {})
     except sc.OutsideModel as e:
         part.count(f"ext_outside_model={e.args[0][:30]}")
     except Exception as e:  # noqa: BLE001 - e.g. a tensor that cannot produce bytes
@@ -705,8 +706,9 @@ def run_case(part, gen_seed: int, p_odd: float, lean_reqs: list, pending: list) 
         part.fail("roundtrip:to_proto-raises:" + type(sc.root_cause(err)).__name__,
                   f"to_proto raised on a serializable model: {sc.root_cause(err)!s:.200}", case)
     if we0 is not None:
-        lean_reqs.append({"m": "scope.eser", "w": we0["world"], "ext": we0["ext"], "ver": int(model.ir_version)})
-        pending.append(("E", case, model, p1, err, m2))
+        lean_reqs.append({"m": "scope.meser" if ext_wf else "scope.eser", "w": we0["world"], "ext": we0["ext"],
+                          "ver": int(model.ir_version)})
+        pending.append(("E", case, model, p1, err, m2, ext_wf))
     if deco0 is not None:
         lean_reqs.append({"m": "scope.dser", "w": deco0})
         pending.append(("D", case, deco0, model, p1, err, m2))
@@ -801,14 +803,16 @@ def diff_deco(part, out: dict, case, deco0, model, p1, err, m2) -> None:
     part.count("deco_reload_agrees")
 
 
-def diff_ext(part, out: dict, case, model, p1, err, m2) -> None:
+def diff_ext(part, out: dict, case, model, p1, err, m2, wf=False) -> None:
     """extended model (merged value metadata, quantization annotations, sharding values): `serializeE` /
     `deserializeE` of the Lean model against to_proto / from_proto on the main graph"""
     if "err" in out and "ser_ok" not in out:
         part.disagree("driver error (scope.eser): " + str(out["err"])[:200], case, out, None)
         return
     part.count("ext_cases")
-    func_devs = any(n.device_configurations for f in model.functions.values() for n in f.graph.all_nodes())
+    if wf:
+        part.count("ext_cases_with_functions")
+    func_devs = (not wf) and any(n.device_configurations for f in model.functions.values() for n in f.graph.all_nodes())
     if p1 is None:
         r = sc.root_cause(err)
         if any(k in str(r) for k in sm.DEVICE_ERRORS):
@@ -825,18 +829,18 @@ def diff_ext(part, out: dict, case, model, p1, err, m2) -> None:
         part.count("d107_stale_tensor_metadata")
         return
     try:
-        real_p = sm.graph_proto_to_ext(p1.graph, {})
+        real_p = sm.model_proto_to_ext(p1, {}) if wf else sm.graph_proto_to_ext(p1.graph, {})
     except (sc.OutsideModel, RecursionError) as e:
         part.count(f"ext_proto_outside_model={str(e)[:30]}")
         return
-    if len(p1.functions) and p1.ir_version < 10:
+    if not wf and len(p1.functions) and p1.ir_version < 10:
         real_p["vinfo"] = [v for v in real_p["vinfo"] if not ("::" in v[0] and "/" in v[0])]
     if real_p != out["p"]:
         d = sm.first_difference(real_p, out["p"])
-        part.disagree(f"extended model: serialized main graph differs at {d}", case, out["p"], real_p)
+        part.disagree(f"extended model: serialized {'model' if wf else 'main graph'} differs at {d}", case, out["p"], real_p)
         return
     part.count("ext_proto_agrees")
-    if any(len(q[1]) for q in real_p["quant"]):
+    if any(len(q[1]) for q in (real_p["p"] if wf else real_p)["quant"]):
         part.count("ext_with_quant_annotation")
     if out.get("ser2_ok") is not True or out.get("p2") != out["p"]:
         part.disagree("extended model: second serialization differs from the first", case, out.get("p2"), out["p"])
@@ -848,7 +852,7 @@ def diff_ext(part, out: dict, case, model, p1, err, m2) -> None:
     if len(p1.functions) and p1.ir_version < 10:
         return  # the reloaded main graph was built with the experimental entries of the functions in its value_info
     try:
-        real2 = sm.canon_world_ext(sm.ir_graph_to_world_ext(m2.graph, {}))
+        real2 = sm.canon_world_ext(sm.ir_model_to_world_ext(m2, {}) if wf else sm.ir_graph_to_world_ext(m2.graph, {}))
     except (sc.OutsideModel, RecursionError):
         return
     mod2 = sm.canon_world_ext({"world": out["world2"], "ext": out["ext2"]})
